@@ -575,6 +575,10 @@ func RunCrash(c *core.Ctx) {
 				mode = "syscall" // die at the entry of the N-th pwrite64 of some thread: inside bbolt's commit
 			case k == 2:
 				mode = "timed"
+			case k == 3 && haveStrace:
+				// die at the entry of the N-th file-system call of some thread that creates, sizes, syncs, renames or
+				// removes a file: inside Open (log files are created and then sized), inside a commit, inside Close
+				mode = "syscall-fs"
 			default:
 				mode = "store-call"
 				killCall = 1 + r.Intn(len(traces[killOp])+1)
@@ -596,7 +600,7 @@ func RunCrash(c *core.Ctx) {
 		}
 		os.Remove(ackPath)
 		be := backend
-		if mode == "timed" || mode == "syscall" {
+		if mode == "timed" || mode == "syscall" || mode == "syscall-fs" {
 			be = rawBackend // the default opening path, no monitor
 		}
 		args := []string{"crashchild", "-dir", dbdir, "-backend", be, "-seed", fmt.Sprint(seed), "-start", fmt.Sprint(start), "-ack", ackPath}
@@ -609,6 +613,13 @@ func RunCrash(c *core.Ctx) {
 		if mode == "syscall" {
 			nth := 1 + r.Intn(24)
 			sargs := append([]string{"-f", "-qq", "-o", "/dev/null", "-e", "trace=pwrite64", "-e", fmt.Sprintf("inject=pwrite64:signal=SIGKILL:when=%d", nth), self}, args...)
+			cmd = exec.Command("strace", sargs...)
+			killCall = nth
+		}
+		if mode == "syscall-fs" {
+			nth := 1 + r.Intn(10)
+			set := "ftruncate,fsync,fdatasync,rename,renameat,renameat2,unlink,unlinkat"
+			sargs := append([]string{"-f", "-qq", "-o", "/dev/null", "-e", "trace=" + set, "-e", fmt.Sprintf("inject=%s:signal=SIGKILL:when=%d", set, nth), self}, args...)
 			cmd = exec.Command("strace", sargs...)
 			killCall = nth
 		}
@@ -718,6 +729,12 @@ func RunCrash(c *core.Ctx) {
 			phase := mode
 			if mode == "syscall" {
 				phase = "inside-commit(pwrite64)"
+			}
+			if mode == "syscall-fs" {
+				phase = "fs-call"
+				if len(st.acked) == 0 && st.inflight < 0 {
+					phase = "fs-call-inside-open"
+				}
 			}
 			if mode == "store-call" {
 				tr := traces[killOp]
@@ -929,26 +946,45 @@ func RunCrashArtifacts(c *core.Ctx) {
 		c.Violate("reopen:error", "close failed: %v", err)
 		return
 	}
-	planted := []string{fmt.Sprintf("%05d.mem", 1+r.Intn(3))}
-	if r.Bool() {
-		planted = append(planted, fmt.Sprintf("%05d.mem", 10+r.Intn(50)))
+	// What a kill leaves when it lands between the creation of a log file and its
+	// first truncate-to-size: a zero-length memtable log (any number: Open and every
+	// memtable switch create one, Close deletes one) or a zero-length value log whose
+	// number follows the highest existing one (Open of a fresh directory, log rotation).
+	var planted []string
+	kind := r.Intn(3)
+	if kind != 1 {
+		planted = append(planted, fmt.Sprintf("%05d.mem", 1+r.Intn(3)))
+		if r.Bool() {
+			planted = append(planted, fmt.Sprintf("%05d.mem", 10+r.Intn(50)))
+		}
+	}
+	if kind != 0 {
+		vlogs, _ := filepath.Glob(filepath.Join(h.Dir, "*.vlog"))
+		next := 0
+		for _, v := range vlogs {
+			var n int
+			if _, err := fmt.Sscanf(filepath.Base(v), "%06d.vlog", &n); err == nil && n > next {
+				next = n
+			}
+		}
+		planted = append(planted, fmt.Sprintf("%06d.vlog", next+1))
 	}
 	for _, f := range planted {
 		os.WriteFile(filepath.Join(h.Dir, f), nil, 0666)
 	}
-	c.Log("Close(); planted empty memtable logs %v", planted)
+	c.Log("Close(); planted empty log files %v", planted)
 	n, err := Open(c, backend, h.Dir)
 	c.Eval(1)
 	if err != nil {
-		c.Violate("crash:reopen", "after a kill that left zero-length memtable logs %v behind, the badger-backed database cannot be reopened: %v", planted, firstLine(err.Error()))
+		c.Violate("crash:reopen", "after a kill that left zero-length log files %v behind, the badger-backed database cannot be reopened: %v", planted, firstLine(err.Error()))
 		return
 	}
 	*h = *n
 	if ok, why := auditAgainst(c, h, m); !ok {
-		c.Violate("crash:state", "reopened over zero-length memtable logs, the database differs from the acknowledged state: %s", why)
+		c.Violate("crash:state", "reopened over zero-length log files, the database differs from the acknowledged state: %s", why)
 		return
 	}
-	c.Cell("crash-artifact|empty-memtable-log|%d-files|%s", len(planted), backend)
+	c.Cell("crash-artifact|%s|%d-files|%s", []string{"empty-memtable-log", "empty-value-log", "empty-memtable-and-value-log"}[kind], len(planted), backend)
 }
 
 func firstLine(s string) string {
